@@ -21,7 +21,7 @@ def gen_term(rnd, nvars, depth):
     if r < 0.62:
         if rnd.random() < 0.45:
             # other Python values used as constants (in the model: atoms with a reserved spelling)
-            return [Sym('a'), rnd.choice(['$py:None', "$py:'txt'"])]
+            return [Sym('a'), rnd.choice(['$py:None', "$py:'txt'", '$py:Fraction(1, 2)', "$py:b'x'"])]
         return [Sym('i'), rnd.randrange(3)]
     if r < 0.9:
         return [Sym('f'), rnd.choice(['f', 'g'])] + [gen_term(rnd, nvars, depth - 1) for _ in range(rnd.randint(0, 3))]
@@ -276,7 +276,7 @@ def real_unify(pairs, watch, sched=('all',), swap_last=False, atoms='same', defe
     return res, late
 
 
-def real_unify_alternatives(prefix, alts, watch):
+def real_unify_alternatives(prefix, alts, watch, method=False):
     """the unifications of `prefix` stay open while the alternatives are tried one after the other
     (each is backtracked before the next); at every yield the watch terms are read. Returns one
     entry per alternative: [ans ...] or fail, then the number of variables still bound."""
@@ -297,7 +297,8 @@ def real_unify_alternatives(prefix, alts, watch):
     for _ in g:
         for a, b in al:
             got = Sym('fail')
-            for _ in E.unify(a, b):
+            # (method: through the left-hand term's own unify method, also on a variable that is bound)
+            for _ in (a.unify(b) if method and isinstance(a, E.IUnifiable) else E.unify(a, b)):
                 got = [Sym('ans')] + R.canon_terms(ws)
             out.append(got)
     del g
@@ -315,6 +316,10 @@ def fix_model(m):
             return Sym('None')
         if m == "$py:'txt'":
             return 'txt'
+        if m == '$py:Fraction(1, 2)':
+            return [Sym('py'), 'Fraction(1, 2)']
+        if m == "$py:b'x'":
+            return [Sym('py'), "b'x'"]
     return m
 
 
